@@ -233,6 +233,9 @@ type Cfg struct {
 	QSeed   uint64        `json:"q_seed"`
 	Policy  simctl.Policy `json:"policy"`
 	Picks   []int         `json:"picks,omitempty"`
+	// Windowed: the inputs are consecutive windows of one backing buffer
+	// (cap > len), as a caller slicing one long stream would pass them
+	Windowed bool `json:"windowed,omitempty"`
 }
 
 // InputSpec describes an input.
@@ -287,6 +290,31 @@ func Execute(t *testing.T, c *Cfg, sim bool) *Outcome {
 	ins := make([]*Input, len(c.Inputs))
 	for i, sp := range c.Inputs {
 		ins[i] = NewInput(fmt.Sprintf("in%d", i), sp.N, sp.Seed, sp.Kind)
+	}
+	var backB []byte
+	var backb []bool
+	var hBackB, hBackb uint64
+	if c.Windowed {
+		// re-home the inputs as adjacent windows of one buffer, plus a guard
+		// region behind the last one
+		for _, in := range ins {
+			backB = append(backB, in.Bytes...)
+			backb = append(backb, in.Bits...)
+		}
+		g := simctl.NewRand(c.QSeed ^ 0x6a)
+		for k := 0; k < 64; k++ {
+			v := g.Uint64()
+			backB = append(backB, byte(v))
+			backb = append(backb, v&1 == 1)
+		}
+		oB, ob := 0, 0
+		for _, in := range ins {
+			in.Bytes = backB[oB : oB+len(in.Bytes)]
+			in.Bits = backb[ob : ob+len(in.Bits)]
+			oB += len(in.Bytes)
+			ob += len(in.Bits)
+		}
+		hBackB, hBackb = hashBytes(backB), hashBits(backb)
 	}
 	// solitary results first, outside the run
 	want := make([][]Res, len(c.Tasks))
@@ -344,6 +372,18 @@ func Execute(t *testing.T, c *Cfg, sim bool) *Outcome {
 				out.Mismatches = append(out.Mismatches, Mismatch{"concurrent-result-differs:" + Catalogue[s.Call].Name,
 					fmt.Sprintf("caller %d call %d %s on input %d: concurrent result %s, solitary result %s", ti, si, Catalogue[s.Call].Name, s.Input, got[ti][si], want[ti][si])})
 			}
+		}
+	}
+	if c.Windowed && (hashBytes(backB) != hBackB || hashBits(backb) != hBackb) {
+		clean := true
+		for _, in := range ins {
+			if in.Modified() != "" {
+				clean = false
+			}
+		}
+		if clean {
+			// every window is intact, so the write went past the end of the last one
+			out.Mismatches = append(out.Mismatches, Mismatch{"input-modified", "memory of the caller behind the last input window (cap > len) was overwritten"})
 		}
 	}
 	for i, in := range ins {
